@@ -3,7 +3,7 @@ import pipeline
 
 LEAN_MODULES = ['PomerolModel.Properties.C02']
 GENERATED = ['chi4']
-THEOREMS = ["Pomerol.Properties.C02." + t for t in ['multiterm_is_simplex_integral', 'ordered_simplex', 'chi_equals_definition', 'extracted_multiterm', 'permutation_table', 'exchange_first_pair', 'sparse_enumeration_is_full_sum', 'sparse_enumeration_visits_stored_quadruples_once', 'sparse_enumeration_is_ordered_lehmann', 'world_stripes_complete', 'selected_stripes_compute_chi']]
+THEOREMS = ["Pomerol.Properties.C02." + t for t in ['multiterm_is_simplex_integral', 'ordered_simplex', 'chi_equals_definition', 'extracted_multiterm', 'permutation_table', 'exchange_first_pair', 'sparse_enumeration_is_full_sum', 'sparse_enumeration_visits_stored_quadruples_once', 'sparse_enumeration_is_ordered_lehmann', 'world_stripes_complete', 'selected_stripes_compute_chi', 'term_order_not_strict_weak', 'term_order_not_strict_weak_first_pole']]
 RULE = 'a case = random model with <=3 (thorough <=4) modes, random and resonant quadruples/triples (n1+n2=-1, n2=n3, n1=n3), purge on/off; chi from the terms, the returned table and evaluation after the table are compared with the signed six-ordering full-space sum of the multi-term; ambiguous resonance decisions are counted and skipped; non-trivial = distinct case with a non-vanishing chi'
 TRUSTED = ["harness/pipe.cpp drives the real classes along the documented workflow; case-file protocol with hex doubles",
            "numeric oracle (lean/Driver/Numeric*.lean): IEEE double arithmetic of compiled Lean, full-Fock-space sums",
